@@ -14,7 +14,9 @@ Oracle (on the real code alone): a recursive type census of the result (only dic
 iff tuple conversion is off / set iff set conversion is off / scalars), the result equals the
 source with container kinds renamed (plain-Python transcription `py_rename`, `py_in` below), and
 finalisation does not fail - except known finding K1 (TypeError unhashable raised inside
-convert_output_data while a set / dict key is built from a container element)."""
+convert_output_data while a set / dict key is built from a container element).  The set-like dict views
+(keys() / items(), of a builtin dict or a FrozenDict) are finalised into LISTS in iteration order under
+every option combination (theorem views_finalise); a failure there is a violation, not K1."""
 import collections.abc
 import itertools
 import json
@@ -36,7 +38,8 @@ REQUIRED_THEOREMS = ['Yaql.Props.C10.' + n for n in (
     'convOut_spec', 'plain', 'plain_root', 'plain_no_frozen_dict', 'succeeds_iff', 'succeeds_iff_lim',
     'outHashable_eq', 'fails_only_unhashable', 'total_partial', 'roundtrip', 'roundtrip_ext', 'roundtrip_only',
     'roundtrip_json', 'roundtrip_default', 'convIn_wf', 'current_fails', 'current_fails_full',
-    'current_fails_unsatisfiable', 'k1_other_options', 'k1_roundtrip')]
+    'current_fails_unsatisfiable', 'k1_other_options', 'k1_roundtrip', 'views_finalise', 'views_finalise_of_dict',
+    'views_documented')]
 TRUSTED = ['Python hashing modelled by the predicate `hashable` (list/dict/set/dict_keys/dict_items unhashable; '
            'tuples and FrozenDicts hash their content; iterators, values views and ordering objects hash by identity)',
            'set / dict de-duplication is not modelled: on every successful path the conversion of hash-position '
@@ -46,7 +49,9 @@ ASSUMPTIONS = ['host leaves are None/bool/int/float/str/opaque hashable objects'
                'finaliser iterates are evaluation errors, not finalisation errors)',
                'a host frozenset is a generic iterable for convert_input_data (doc-silent, modelled as implemented)']
 
-SETLIKE = ('set', 'fset', 'kview', 'iview')
+SETLIKE = ('set', 'fset', 'kview', 'iview')        # collections.abc.Set
+VIEWS = ('kview', 'iview')                         # collections.abc.KeysView / ItemsView: finalised into lists
+BUILDS_SET = ('set', 'fset')                       # finalised by building a set (unless sets become lists)
 SEQ = ('tuple', 'list')
 ALL_OPTS = [(True, False), (False, False), (True, True), (False, True)]     # (t2l, s2l); first = defaults
 
@@ -182,6 +187,8 @@ def build(j, rng=None, memo=None):
 # ----------------------------------------------------- plain-Python transcription of the documented meaning
 
 def py_out_kind(k, t2l, s2l):
+    if k in VIEWS:
+        return 'list'           # documented: {a=>1, b=>2}.keys() -> ["a", "b"], .items() -> [["a", 1], ["b", 2]]
     if k in SETLIKE:
         return 'list' if s2l else 'set'
     if k in SEQ:
@@ -209,7 +216,7 @@ def py_clean(j, t2l, s2l):
         return True
     if 'm' in j:
         return all(py_clean(k, t2l, s2l) and py_clean(v, t2l, s2l) and py_hashshape(k, t2l) for k, v in j['l'])
-    nh = j['q'] in SETLIKE and not s2l
+    nh = j['q'] in BUILDS_SET and not s2l
     return all(py_clean(x, t2l, s2l) and (not nh or py_hashshape(x, t2l)) for x in j['l'])
 
 
@@ -278,8 +285,8 @@ def py_rename_marked(j, t2l, s2l):
     if 'm' in j:
         return {'m': 'dict', 'l': [[py_rename_marked(k, t2l, s2l), py_rename_marked(v, t2l, s2l)] for k, v in j['l']]}
     r = {'q': py_out_kind(j['q'], t2l, s2l), 'l': [py_rename_marked(x, t2l, s2l) for x in j['l']]}
-    if j['q'] in SETLIKE:
-        r['unordered'] = True
+    if j['q'] in BUILDS_SET:
+        r['unordered'] = True     # (a list made from a dict view keeps the dictionary's order)
     return r
 
 
@@ -397,6 +404,19 @@ TEMPLATES = [('[H, H]', 2), ('[H]', 1), ('{k => H}', 1), ('{k => H, j => H}', 2)
              # one value in several places of the result (results are DAGs, not only trees)
              ('let(x => H) -> [$x, $x]', 1), ('let(x => H) -> {p => $x, q => [$x]}', 1), ('let(x => H) -> [[$x], {k => $x}, $x]', 1),
              ('let(x => H, y => H) -> [$x, $y, $x]', 2), ('[1, 2, 3, 4, 5].select(H)', 1)]
+
+
+# examples of the docstrings of dict_keys / dict_values / dict_items (standard_library/collections.py) and the
+# former K1 witnesses among the dict views: (expression, documented value under the default options)
+DOCUMENTED = [('{"a" => 1, "b" => 2}.items()', [['a', 1], ['b', 2]]),
+              ('{"a" => 1, "b" => 2}.keys()', ['a', 'b']),
+              ('{"a" => 1, "b" => 2}.values()', [1, 2]),
+              ('{a=>1}.items()', [['a', 1]]),
+              ('{a=>1}.keys()', ['a']),
+              ('[1, 2].toDict($, [$]).items()', [[1, [1]], [2, [2]]]),        # views of a builtin dict
+              ('[1, 2].toDict($).keys()', [1, 2]),
+              ('dict([[[1, 2], 3]]).keys()', [[1, 2]]),                       # the dict itself is K1, its views are not
+              ('dict([[[1, 2], 3]]).items()', [[[1, 2], 3]])]
 
 
 def gen_expr(rng, depth):
@@ -564,6 +584,15 @@ def run_case(real, drv, res, case, hist):
         one.pop('lims', None)
         if not judge(res, one, raw_j, out, m, t2l, s2l, lim, hist):
             ok = False
+        elif 'expect' in case and ((t2l, s2l), lim) == (ALL_OPTS[0], None):
+            # an example of the documentation: the value it states, under the default options
+            exp = penc(case['expect'])
+            got = penc(out[1]) if out[0] == 'ok' else None
+            hist['documented-examples'] = hist.get('documented-examples', 0) + 1
+            if got is None or not matches(exp, got):
+                res.fail('oracle', 'documented-example', 'the documented example `%s` -> %r gives %s under the default options' % (
+                    case['expr'], case['expect'], show(got) if got is not None else out[2]), one)
+                ok = False
         res.traces += 1 if m is not None else 0
     if mode == 'B':
         # convert_input_data itself against the model and the transcription
@@ -789,8 +818,9 @@ def run(env, res):
 
     nfail0 = 0
     # fixed cases first: the K1 witnesses and the examples of the statement
-    fixed = [dict(mode='C', expr=e) for e in ('set([1,2])', 'dict([[[1,2], 3]])', '{a=>1}.items()', '[[1,2]].toDict($)',
-                                              '[2,1].orderBy($)', '[1,2,1].groupBy($)', '{a=>1}.keys()', '{a=>1}.values()')]
+    fixed = [dict(mode='C', expr=e) for e in ('set([1,2])', 'dict([[[1,2], 3]])', '[[1,2]].toDict($)',
+                                              '[2,1].orderBy($)', '[1,2,1].groupBy($)', '{a=>1}.values()')]
+    fixed += [dict(mode='C', expr=e, expect=x) for e, x in DOCUMENTED]
     fixed += [dict(mode='B', v=penc(d)) for d in ({'a': [1, {'b': None}], 'c': 'x'}, [(1, 2), {3}], {(1, 2)}, [frozenset([1])])]
     for case in fixed:
         run_case(real, drv, res, case, hist)
@@ -852,7 +882,8 @@ LEVEL_TEXT = ('Lean 4 theorems over a code-shaped model of utils.convert_input_d
               'no collection exceeds the limit; the result is the source with container kinds renamed), plain (every '
               'result is plain data, all options, all limits), succeeds_iff, fails_only_unhashable, total_partial, '
               'roundtrip (JSON-like documents and tuples / sets / generators of such; `= d` under the defaults), '
-              'convIn_wf (input conversion never raises). The full claim "finalisation succeeds for every value under '
+              'convIn_wf (input conversion never raises), views_finalise (keys() / items() of any dict whose keys and '
+              'values are finalised become the list of keys / of [key, value] pairs, all options). The full claim "finalisation succeeds for every value under '
               'every option combination" is false of the code and unsatisfiable: current_fails / current_fails_full / '
               'current_fails_unsatisfiable (known finding K1). Tie: the compiled model and the real code are run on the '
               'same random values, documents and expression results under the 4 option combinations and several limits.')
